@@ -20,6 +20,13 @@ def big_message(rng, sc, total):
 
 def gen(rng, sc, n):
     lines, meta = [], {}
+    import random
+    r0 = random.Random('C03-directed')
+    for total in (9000, 20000, 7000):              # the known finding's witnesses (and a fitting message) come first, every run
+        mt, items = big_message(r0, sc, total)
+        l = cc.spec_line('enc', mt, items, r0)
+        lines.append(l)
+        meta[l] = ('enc', 'big', cc.payload_len(sc, mt, items))
     for i in range(n):
         mt, items = cc.gen_message(rng, sc, p_opt=rng.choice((0.0, 0.2, 0.6, 1.0)))
         k = rng.choice(cc.MUTATIONS)
